@@ -348,10 +348,26 @@ class LessParser(object):
         p[0] = Identifier([p[1], ' ']).parse(self.scope)
 
     def p_keyframe_open(self, p):
-        """block_open                 : css_keyframe_selector brace_open
-                                      | number brace_open
+        """block_open                 : keyframe_selector_list brace_open
         """
-        p[0] = KeyframeSelector([p[1]]).parse(self.scope)
+        p[0] = KeyframeSelector(p[1]).parse(self.scope)
+
+    def p_keyframe_selector_list_aux(self, p):
+        """keyframe_selector_list     : keyframe_selector_list t_comma keyframe_selector
+        """
+        p[0] = p[1] + [p[3]]
+
+    def p_keyframe_selector_list(self, p):
+        """keyframe_selector_list     : keyframe_selector
+        """
+        p[0] = [p[1]]
+
+    def p_keyframe_selector(self, p):
+        """keyframe_selector          : css_keyframe_selector
+                                      | css_keyframe_selector t_ws
+                                      | number
+        """
+        p[0] = p[1]
 
 #
 #    ~~~~~~~~~~~~~~~~~~~~~~~~~~~~~~~~~~~~~
